@@ -55,6 +55,7 @@ impl<'a, W: AsyncWrite + Unpin> QueryCommandHandler<'a, W> {
             limit,
             offset,
             where_clause,
+            event_sequence,
             ..
         } = self.command
         else {
@@ -75,20 +76,32 @@ impl<'a, W: AsyncWrite + Unpin> QueryCommandHandler<'a, W> {
         // Skip permission check if user_id is "bypass" (bypass_auth mode)
         if let Some(auth_mgr) = self.auth_manager {
             if let Some(uid) = self.user_id {
-                // Skip permission checks for bypass user
-                if uid != BYPASS_USER_ID && !auth_mgr.can_read(uid, event_type).await {
-                    warn!(
-                        target: "sneldb::query",
-                        user_id = uid,
-                        event_type,
-                        "Read permission denied"
-                    );
-                    return self
-                        .write_error(
-                            StatusCode::Forbidden,
-                            &format!("Read permission denied for event type '{}'", event_type),
-                        )
-                        .await;
+                // A sequence query returns events of every event type in the sequence,
+                // so each of them requires read permission, not only the primary one.
+                let mut required: Vec<&str> = vec![event_type.as_str()];
+                if let Some(seq) = event_sequence {
+                    required.push(seq.head.event.as_str());
+                    required.extend(seq.links.iter().map(|(_, target)| target.event.as_str()));
+                }
+                for required_type in required {
+                    // Skip permission checks for bypass user
+                    if uid != BYPASS_USER_ID && !auth_mgr.can_read(uid, required_type).await {
+                        warn!(
+                            target: "sneldb::query",
+                            user_id = uid,
+                            event_type = required_type,
+                            "Read permission denied"
+                        );
+                        return self
+                            .write_error(
+                                StatusCode::Forbidden,
+                                &format!(
+                                    "Read permission denied for event type '{}'",
+                                    required_type
+                                ),
+                            )
+                            .await;
+                    }
                 }
             } else {
                 // Authentication required but no user_id provided
